@@ -467,6 +467,10 @@ func (s *BadgerStore) dbSetRepertoire(peer *peers.Peer) error {
 		return err
 	}
 
+	if err := simStorePoint(s, "repertoire", "pre"); err != nil {
+		return err
+	}
+	defer simStorePoint(s, "repertoire", "post")
 	return tx.Commit()
 }
 
@@ -510,6 +514,10 @@ func (s *BadgerStore) dbSetPeerSet(round int, peerSet *peers.PeerSet) error {
 		return err
 	}
 
+	if err := simStorePoint(s, "peerset", "pre"); err != nil {
+		return err
+	}
+	defer simStorePoint(s, "peerset", "post")
 	return tx.Commit()
 }
 
@@ -570,6 +578,10 @@ func (s *BadgerStore) dbSetEvents(events []*Event) error {
 			}
 		}
 	}
+	if err := simStorePoint(s, "event", "pre"); err != nil {
+		return err
+	}
+	defer simStorePoint(s, "event", "post")
 	return tx.Commit()
 }
 
@@ -676,6 +688,10 @@ func (s *BadgerStore) dbSetRoot(participant string, root *Root) error {
 		return err
 	}
 
+	if err := simStorePoint(s, "root", "pre"); err != nil {
+		return err
+	}
+	defer simStorePoint(s, "root", "post")
 	return tx.Commit()
 }
 
@@ -742,6 +758,10 @@ func (s *BadgerStore) dbSetRound(index int, round *RoundInfo) error {
 		return err
 	}
 
+	if err := simStorePoint(s, "round", "pre"); err != nil {
+		return err
+	}
+	defer simStorePoint(s, "round", "post")
 	return tx.Commit()
 }
 
@@ -784,6 +804,10 @@ func (s *BadgerStore) dbSetBlock(block *Block) error {
 		return err
 	}
 
+	if err := simStorePoint(s, "block", "pre"); err != nil {
+		return err
+	}
+	defer simStorePoint(s, "block", "post")
 	return tx.Commit()
 }
 
@@ -826,6 +850,10 @@ func (s *BadgerStore) dbSetFrame(frame *Frame) error {
 		return err
 	}
 
+	if err := simStorePoint(s, "frame", "pre"); err != nil {
+		return err
+	}
+	defer simStorePoint(s, "frame", "post")
 	return tx.Commit()
 }
 
